@@ -83,6 +83,19 @@ def answer (fn : String) (bytes : List UInt8) (a1 a2 : Option Nat) : String :=
   | "readdata1" =>
     showData (readData1 ⟨fun _ => false, knownC05a, fun _ => false⟩ C05.imbedAggrStaysInRecord C05.entNmArrGuard C05.skipInstanceSkipsComments false C05.readCommentIters
       C05.maxErrorCount fuel (IS.ofBytes bytes))
+  | "readdata2" =>
+    -- pass 2 with the `ReadInstance` skeleton; the look-up oracle is the set of ids pass 1 created (bit mask in the first
+    -- argument), the entity is the one without attributes (`stepReadNoAttrs`)
+    let mask := a1.getD 0
+    let cm := C05.skipInstanceSkipsComments
+    let it := C05.readCommentIters
+    let tok := readTokenSeparator cm it fuel
+    let skip := skipInstance cm it fuel
+    let rc := readComment cm it fuel
+    let sr := stepReadNoAttrs C05.recoveryScanStaysInRecord C05.recoveryScanPutsBackSemi cm it fuel
+    let idOf := fun (s : IS) => (s.pre.takeWhile isDigit).reverse.foldl (fun v d => v * 10 + (d.toNat - 48)) 0
+    showData (readData2 (readInstanceSkel (fun s => if mask.testBit (idOf s) then 2 else 0) (rdKw sr tok skip) rc tok skip)
+      cm false it C05.maxErrorCount fuel (IS.ofBytes bytes))
   | "getkeyword" =>
     showLoop (fun r => s!"len={r.len} ") (getKeyword ";( /\\".toUTF8.toList fuel (IS.ofBytes bytes))
   | "readheader" =>
